@@ -694,7 +694,7 @@ def k3(groups, tag):
             flat.append((gi, ci))
     # shard by groups, keeping roughly equal numbers of cases
     shards, cur, cnt = [], [], 0
-    per = max(1, len(flat) // 16)
+    per = max(1, min(len(flat) // 16, 3000))    # bounded coqc jobs (memory, time-out) whatever the corpus size
     for gi, (ast, cases) in enumerate(groups):
         for start in range(0, len(cases), per):
             chunk = list(range(start, min(len(cases), start + per)))
